@@ -291,6 +291,61 @@ func c13SameNamedMethods(b *core.B) {
 	}
 }
 
+// c13NearTexts: with the cache on, two texts that differ only in what a normaliser might
+// take for noise (line endings, trailing blanks, a byte order mark, case, blanks inside
+// a tag, a NUL, composed and decomposed letters) are two templates: each renders as it
+// does with the cache off, whichever of them was rendered first.
+func c13NearTexts(b *core.B) {
+	base := "Line one\n<%= \"a\nb\" %> x\n<%= v %>\nend\n"
+	variants := []struct{ name, text string }{
+		{"crlf", strings.Replace(base, "\n", "\r\n", -1)},
+		{"cr", strings.Replace(base, "\n", "\r", -1)},
+		{"trailing-blank", base + " "},
+		{"trailing-newline", base + "\n"},
+		{"leading-bom", "\ufeff" + base},
+		{"leading-blank", " " + base},
+		{"upper-case", strings.Replace(base, "Line one", "LINE ONE", 1)},
+		{"blanks-in-tag", strings.Replace(base, "<%= v %>", "<%=  v  %>x", 1)},
+		{"tab-for-blank", strings.Replace(base, "Line one", "Line\tone", 1)},
+		{"nul", strings.Replace(base, "Line one", "Line\x00one", 1)},
+		{"doubled-blank", strings.Replace(base, "Line one", "Line  one", 1)},
+		{"nbsp", strings.Replace(base, "Line one", "Line\u00a0one", 1)},
+		{"decomposed", strings.Replace(base, "end", "e\u0301nd", 1)},
+		{"composed", strings.Replace(base, "end", "\u00e9nd", 1)},
+	}
+	defer func() { plush.CacheEnabled = false }()
+	run := func(text string, cache bool) R {
+		plush.CacheEnabled = cache
+		ctx := plush.NewContext()
+		ctx.Set("v", "V")
+		return renderQuiet(text, ctx)
+	}
+	for i, va := range variants {
+		for _, first := range []int{0, 1} {
+			// a text of its own per case, so that no earlier case has filled the cache
+			nonce := fmt.Sprintf("<%%# near %d.%d %%>", i, first)
+			pair := []string{nonce + base, nonce + va.text}
+			if !b.Begin(fmt.Sprintf("near texts (%s), %d first: %q / %q", va.name, first, pair[0], pair[1])) {
+				continue
+			}
+			b.NonTrivialStr("near-texts", va.name, fmt.Sprint(first))
+			b.Count("near-texts:" + va.name)
+			ref := []R{run(pair[0], false), run(pair[1], false)}
+			for step, k := range []int{first, 1 - first, first, 1 - first} {
+				got := run(pair[k], true)
+				if got.Pan != nil {
+					b.Violate(got.Pan.Sig(), got.Pan.Value)
+					break
+				}
+				if (got.Err == nil) != (ref[k].Err == nil) || got.Out != ref[k].Out {
+					b.Violate("depends-on-earlier-renders|cache-on|near-texts|"+va.name, fmt.Sprintf("step %d renders %q\ncache off: %s\ncache on, after its near twin: %s", step, pair[k], ref[k], got))
+					break
+				}
+			}
+		}
+	}
+}
+
 // c13MadeInTheTemplate: values that a template makes while it runs (iterators) are new
 // objects in every execution; nothing about their identity may reach output or error text.
 func c13MadeInTheTemplate(b *core.B) {
@@ -468,6 +523,7 @@ func c13Run(b *core.B) {
 		c13NestedFailure(b)
 		c13SameNamedTypes(b)
 		c13SameNamedMethods(b)
+		c13NearTexts(b)
 		c13MadeInTheTemplate(b)
 		c13ErrorTexts(b)
 	}
